@@ -185,5 +185,162 @@ def u_subgraph_scanning(with_time_limit):
                 abstractions=["windows are identified by their right index; which nodes a window's subgraph has is an uninterpreted relation", "the visited windows are ghost state"])
 
 
+
+
+def u_get_lowerbound_k(cls="MinFlowDecomp", relpath="flowpaths/minflowdecomp.py"):
+    """MinFlowDecomp.get_lowerbound_k: the glue of the lower bounds.
+    ensures  the value is the MAXIMUM of: the caller's `lowerbound_k` option (default 1); ceil(log2(number of distinct integer flow values on the non-ignored edges)) when
+             there is such an edge; the width of the s-t DAG with the synthetic source/sink edges AND the ignored edges left out; the min-gen-set bound / the
+             subgraph-scanning bound when their option is on and they are not None - nothing larger, nothing left out; it is cached and a second call returns the cache
+             without recomputing.
+    Each component being a lower bound on the optimum is A4 (not proved); the two optional bounds have their own units."""
+    st = {}
+    IGN = z3.Function("edge_is_ignored", INT, INT, BOOL)
+    HASF = z3.Function("edge_has_flow_attribute", INT, INT, BOOL)
+
+    class Distinct:
+        """set of int(flow) over the counted edges: only its size is used"""
+        def __init__(self, n): self.n = n
+
+    def h(c, f):
+        optlb, nd, width, mgs, scan = (c.fresh_const(x, INT) for x in ("option_lowerbound_k", "n_distinct_values", "width_without_ignored", "mingenset_bound", "scanning_bound"))
+        use_mgs, use_scan, has_opt, mgs_none, scan_none = (c.fresh_const(x, BOOL) for x in ("use_min_gen_set_lowerbound", "use_subgraph_scanning_lowerbound", "lowerbound_k_given",
+                                                                                               "mingenset_bound_is_None", "scanning_bound_is_None"))
+        c.assume(z3.And(optlb >= 1, nd >= 0, width >= 0, mgs >= 0, scan >= 0))
+        LOG = z3.Function("ceil_log2", INT, INT)
+        calls = []
+
+        class Opts:
+            def get(self, k, default=None):
+                if k == "lowerbound_k":
+                    return Sym(z3.If(has_opt, optlb, lift(default))) if default is not None else None
+                if k == "use_min_gen_set_lowerbound":
+                    return Sym(use_mgs)
+                if k == "use_subgraph_scanning_lowerbound":
+                    return Sym(use_scan)
+                raise Unsupported("option %r" % (k,))
+
+        class StG:
+            source_sink_edges = None
+            def __init__(self, G):
+                calls.append("stDAG")
+                self.source_sink_edges = SSE()
+            def get_width(self, edges_to_ignore=None):
+                ok = isinstance(edges_to_ignore, Union) and edges_to_ignore.parts == ("source_sink_edges", "edges_to_ignore")
+                c.prove("pre:the-width-is-taken-with-the-synthetic-source/sink-edges-and-the-ignored-edges-left-out", z3.BoolVal(ok), prop=P, kind="pre")
+                calls.append("width")
+                return Sym(width)
+
+        class Union:
+            def __init__(self, parts): self.parts = parts
+
+        class SSE:
+            def union(self, other): return Union(("source_sink_edges", "edges_to_ignore") if other is me.edges_to_ignore else ("source_sink_edges", "?"))
+
+        class Me(Tracked):
+            def _get_lowerbound_with_min_gen_set(self):
+                calls.append("mgs")
+                return None if c.decide(mgs_none, "mgs-none") else Sym(mgs)
+            def _get_lowerbound_with_subgraph_scanning(self):
+                calls.append("scan")
+                return None if c.decide(scan_none, "scan-none") else Sym(scan)
+        me = Me()
+        me._lowerbound_k = None
+        FL = z3.Function("flow_value", INT, INT, REAL)
+
+        class AttrD:
+            def __init__(self, e): self.u, self.v = lift(e[0]), lift(e[1])
+            def sym_contains(self, a): return Sym(HASF(self.u, self.v))
+            def __contains__(self, a): return bool(self.sym_contains(a))
+            def __getitem__(self, a): return Sym(FL(self.u, self.v))
+
+        class EdgesView:
+            def __call__(self, data=False): return st["E"]
+            def __getitem__(self, e): return AttrD(e)
+
+        class GG:
+            edges = EdgesView()
+        st["E"] = SymSeq.fresh("G.edges", ESH)
+        me.G = GG()
+        me.optimization_options = Opts()
+        me.edges_to_ignore = ("IGNORED-EDGES",)
+        me.flow_attr = "flow"
+        st.update(nd=nd, me=me, LOG=LOG)
+
+        class Math:
+            @staticmethod
+            def log2(x): return ("log2", lift(x))
+            @staticmethod
+            def ceil(x):
+                if isinstance(x, tuple) and x[0] == "log2":
+                    return Sym(LOG(x[1]))
+                raise Unsupported("ceil of something else than log2(...)")
+        st["math"] = Math
+        st["stdag"] = StG
+        st["Union"] = Union
+        r = f(me)
+        want = z3.If(has_opt, optlb, z3.IntVal(1))
+        mx = lambda a, b: z3.If(a >= b, a, b)
+        want = z3.If(nd > 0, mx(want, LOG(nd)), want)
+        want = mx(want, width)
+        want = z3.If(z3.And(use_mgs, z3.Not(mgs_none)), mx(want, mgs), want)
+        want = z3.If(z3.And(use_scan, z3.Not(scan_none)), mx(want, scan), want)
+        c.prove("post:the-bound=max(option-or-1,-ceil(log2(#distinct-values))-if-any,-width,-min-gen-set-bound-if-on,-scanning-bound-if-on)", lift(r) == want, prop=P)
+        c.prove("post:the-bound-is-cached", z3.BoolVal(me._lowerbound_k is r or (isinstance(me._lowerbound_k, Sym) and z3.eq(lift(me._lowerbound_k), lift(r)))), prop=P)
+        c.prove("post(auxiliary):the-optional-bounds-are-computed-iff-their-option-is-on", z3.And(z3.BoolVal("mgs" in calls) == use_mgs, z3.BoolVal("scan" in calls) == use_scan), prop=None)
+        n0 = len(calls)
+        r2 = f(me)
+        c.prove("post:a-second-call-returns-the-cached-bound-without-recomputing", z3.And(z3.BoolVal(len(calls) == n0), lift(r2) == lift(r)), prop=P)
+
+    class IgnSet:
+        def sym_contains(self, e): return Sym(IGN(lift(e[0]), lift(e[1])))
+        def __contains__(self, e): return bool(self.sym_contains(e))
+
+    def set_(x=None):
+        from pyvc.heap import LazyMap
+        c = core.ctx()
+        if isinstance(x, Distinct):
+            return x
+        if x is st["me"].edges_to_ignore:
+            return IgnSet()
+        if isinstance(x, LazyMap) and x.seq is st["E"] and x.flt is not None:
+            # { int(flow) for e in G.edges() if <has the attribute> and <not ignored> }: the values of exactly the counted edges; only the size of the set is used afterwards
+            q = c.fresh_const("arbitrary_edge", INT)
+            c.assume(z3.And(q >= 0, q < st["E"].n))
+            el = st["E"]._at(q)
+            with c.quantified(z3.BoolVal(True)):
+                keep = x.flt(el)
+            c.prove("pre:the-distinct-values-are-taken-over-exactly-the-edges-that-carry-a-value-and-are-not-ignored",
+                    lift(keep) == z3.And(HASF(lift(el[0]), lift(el[1])), z3.Not(IGN(lift(el[0]), lift(el[1])))), prop=P, kind="pre")
+            return Distinct(st["nd"])
+        raise Unsupported("set() of %s" % type(x).__name__)
+
+    def len_(x):
+        if isinstance(x, Distinct):
+            return Sym(x.n)
+        from pyvc.rt import BUILTINS
+        return BUILTINS["len"](x)
+
+    class MathProxy:
+        def __getattr__(self, k): return getattr(st["math"], k)
+
+    class StdagProxy:
+        @staticmethod
+        def stDAG(G): return st["stdag"](G)
+
+    class ClsProxy:
+        use_min_gen_set_lowerbound = False
+        use_subgraph_scanning_lowerbound = False
+
+    class EdgesOf:
+        pass
+    from vf.replay import replay_lowerbound_k
+    return Unit(relpath, cls + ".get_lowerbound_k", h, replay=replay_lowerbound_k, globs={"utils": UtilsStub, "math": MathProxy(), "stdag": StdagProxy, "set": set_, "len": len_, cls: ClsProxy, "list": lambda x: x}, props=[P],
+                
+                callee_contracts=["stDAG.get_width (C09)", "_get_lowerbound_with_min_gen_set, _get_lowerbound_with_subgraph_scanning (own units)"],
+                assumptions=["A4 (not proved): every component is a lower bound on the minimum number of paths", "ceil(log2(n)) is an uninterpreted integer function of n",
+                             "the set of distinct integer flow values is opaque: only its size is used; that it ranges over exactly the value-carrying, non-ignored edges is a checked clause"])
+
+
 def all_units():
-    return [u_subgraph_scanning(False), u_subgraph_scanning(True)]
+    return [u_subgraph_scanning(False), u_subgraph_scanning(True), u_get_lowerbound_k()]
